@@ -20,6 +20,7 @@ mod bombs;
 static GLOBAL: bombs::Counting = bombs::Counting;
 mod robotics;
 mod snippet;
+mod scalarrt;
 mod yamlgen;
 
 pub struct Args {
@@ -59,6 +60,7 @@ fn main() {
         ("iofault", m) => iofault::run(m, &a),
         ("reader", m) => reader::run(m, &a),
         ("snippet", m) => snippet::run(m, &a),
+        ("scalarrt", m) => scalarrt::run(m, &a),
         _ => { eprintln!("unknown area/mode"); 2 }
     };
     std::process::exit(code);
